@@ -65,6 +65,20 @@ func (x *Exec) funcValueKey(v ssa.Value) string {
 		if fv, ok := v.X.(*ssa.FreeVar); ok {
 			return "funcparam:" + x.name + "." + fv.Name()
 		}
+		if al, ok := v.X.(*ssa.Alloc); ok {
+			// a local holding a func value: use the provenance of the single stored value
+			var stored ssa.Value
+			n := 0
+			for _, ref := range *al.Referrers() {
+				if st, ok := ref.(*ssa.Store); ok && st.Addr == al {
+					stored = st.Val
+					n++
+				}
+			}
+			if n == 1 {
+				return x.funcValueKey(stored)
+			}
+		}
 	case *ssa.Field:
 		st := v.X.Type()
 		fld := st.Underlying().(*types.Struct).Field(v.Field)
@@ -205,7 +219,14 @@ func (x *Exec) call(in ssa.Instruction, c *ssa.CallCommon, res ssa.Value) {
 		}
 	} else {
 		cenv := &Env{x: x, st: x.st, old: x.st, binders: binders, bound: map[string]Val{}, closed: true}
+		caps := map[string]bool{}
+		for _, l := range splitList(fc.Opts["capture"]) {
+			caps[l] = true
+		}
 		for _, cl := range fc.Requires {
+			if caps[cl.Label] {
+				continue // checked where the closure is created
+			}
 			t := x.evalBool(cl.Expr, cenv, cl)
 			tags := append(append([]string(nil), cl.Tags...), x.safetyTags...)
 			x.oblige("pre", fmt.Sprintf("%s.%s", shortCallee(key), cl.Label), tags, len(tags) == 0, t, cl.Src, cl.Where+" @call "+x.pos(c.Pos()))
@@ -245,7 +266,13 @@ func (x *Exec) call(in ssa.Instruction, c *ssa.CallCommon, res ssa.Value) {
 			if mentionsLocalGhost(cl.Expr, fc) {
 				continue // the callee's activation-local ghost state is not visible to callers
 			}
-			t := x.evalBool(cl.Expr, cenv, cl)
+			t, ok := x.tryEvalBool(cl.Expr, cenv, cl)
+			if !ok {
+				// the clause talks about the callee's local variables: it is checked
+				// inside the callee but gives callers nothing
+				e.note("%s: postcondition %s of %s mentions callee locals; not usable at call sites", x.name, cl.Label, key)
+				continue
+			}
 			e.assume(x.guard, t)
 		}
 		if fc.Trusted {
@@ -283,6 +310,20 @@ func (x *Exec) scalarArgsOnly(c *ssa.CallCommon) bool {
 		}
 	}
 	return true
+}
+
+// tryEvalBool evaluates a clause, reporting false if a name does not bind.
+func (x *Exec) tryEvalBool(ex SExpr, env *Env, c *Clause) (t string, ok bool) {
+	defer func() {
+		if r := recover(); r != nil {
+			if u, isU := r.(unsupported); isU && strings.Contains(u.msg, "unbound name") {
+				t, ok = "", false
+				return
+			}
+			panic(r)
+		}
+	}()
+	return x.evalBool(ex, env, c), true
 }
 
 func mentionsLocalGhost(ex SExpr, fc *FuncContract) bool {
@@ -328,11 +369,37 @@ func (x *Exec) havocAll() {
 	ob := e.heapGet(x.st, "brk")
 	epochCounter++
 	x.st.Epoch = epochCounter
+	var keys []string
 	for k := range x.st.H {
+		keys = append(keys, k)
+	}
+	sortStrings(keys)
+	for _, k := range keys {
 		if k == "brk" || strings.HasPrefix(k, "L:") {
 			continue
 		}
-		delete(x.st.H, k)
+		old := x.st.H[k]
+		switch {
+		case strings.HasPrefix(k, "H_") || strings.HasPrefix(k, "M_") || strings.HasPrefix(k, "MD_") || strings.HasPrefix(k, "MV_"):
+			// cells allocated by this activation (locals, captured variables) are
+			// out of the callee's reach unless passed to it
+			nw := e.heapHavoc(x.st, k)
+			local := fmt.Sprintf("(and (>= r %s) (< r %s))", x.brk0, ob)
+			if x.fn != nil {
+				for _, fv := range x.fn.FreeVars {
+					if v, ok := x.vals[fv]; ok && v.T != "" {
+						local = fmt.Sprintf("(or %s (= r %s))", local, v.T)
+					}
+				}
+			}
+			e.assume("", fmt.Sprintf("(forall ((r Int)) (! (=> %s (= (select %s r) (select %s r))) :pattern ((select %s r))))", local, nw, old, nw))
+			e.assumptionsUsed["a call that may modify everything does not modify cells allocated by the calling activation (its locals and captured variables)"] = true
+		case k == "G:done":
+			nw := e.heapHavoc(x.st, k)
+			e.assume("", fmt.Sprintf("(forall ((c Int)) (! (=> (select %s c) (select %s c)) :pattern ((select %s c))))", old, nw, nw))
+		default:
+			delete(x.st.H, k)
+		}
 	}
 	nb := e.heapHavoc(x.st, "brk")
 	e.assume("", fmt.Sprintf("(>= %s %s)", nb, ob))
